@@ -198,6 +198,81 @@ func H_C10_bind(v *V) {
 	v.Assert(v.EqStr(gotS, wantS), "an interleaved option keeps its argument")
 }
 
+type c10P struct {
+	F   bool `short:"f"`
+	Pos struct {
+		First  string
+		Second string
+	} `positional-args:"yes"`
+}
+
+// H_C10_pano: PassDoubleDash together with PassAfterNonOption. Options are
+// recognised until the first plain word or the terminator; from a plain word
+// on every token (the terminator too) is passed through verbatim, after the
+// terminator every token but the terminator itself - first to the positional
+// fields, then to the remaining arguments.
+func H_C10_pano(v *V) {
+	n := v.Shape("n")
+	var argv []string
+	var passed []string
+	passing := false
+	wantF := false
+	for i := 0; i < n; i++ {
+		var tok string
+		switch v.Choice(4) {
+		case 0:
+			tok = "-f"
+		case 1:
+			tok = "--"
+		case 2:
+			w := v.String(1)
+			v.Assume(w != "-")
+			tok = "w" + w
+		case 3:
+			tok = "-" + v.String(1) // option-looking; only ever reached in pass-through mode
+			if !passing {
+				v.Assume(false)
+			}
+		}
+		argv = append(argv, tok)
+		switch {
+		case passing:
+			passed = append(passed, tok)
+		case tok == "-f":
+			wantF = true
+		case tok == "--":
+			passing = true
+		default:
+			passing = true
+			passed = append(passed, tok)
+		}
+	}
+	d := &c10P{}
+	p := NewNamedParser("prog", PassDoubleDash|PassAfterNonOption)
+	p.AddGroup("Application Options", "", d)
+	rest, err := p.ParseArgs(argv)
+	vObsErr(v, err)
+	v.Assert(err == nil, "flags, the terminator and passed-through tokens parse")
+	if err != nil {
+		return
+	}
+	v.Reach("success")
+	get := func(i int) string {
+		if i < len(passed) {
+			return passed[i]
+		}
+		return ""
+	}
+	var wantRest []string
+	if len(passed) > 2 {
+		wantRest = passed[2:]
+	}
+	v.Assert(v.EqStr(d.Pos.First, get(0)) && v.EqStr(d.Pos.Second, get(1)), "passed-through tokens bind to the positional fields in order, verbatim")
+	v.Assert(v.EqStrs(rest, wantRest), "tokens beyond the declared fields become remaining arguments")
+	v.Assert(d.F == wantF, "a flag before the first plain word / terminator is recognised, later ones are passed through")
+}
+
 func init() {
+	vHarnesses["H_C10_pano"] = H_C10_pano
 	vHarnesses["H_C10_bind"] = H_C10_bind
 }
